@@ -237,6 +237,24 @@ theorem wrapper_refs_needed :
     isAliased (methodCollisions (serviceNames ["Library"] ["move_book"]
       (("operation", "acme.lib_v1.types") :: wrapperRefs true false false "acme.lib_v1.services.library")) []) "operation" = true := by decide
 
+/-! ## The import statement binds the name the references use -/
+
+/-- for every kind of type (python wrapper, own API, proto-plus dependency, `_pb2` dependency), any module name and any alias (empty or
+not): the local name bound by `Address.python_import` is the module part of `str(Address)` that every reference in the emitted code uses -/
+theorem import_binds_reference_name (k : ImportKind) (module alias : String) :
+    (pythonImport k module alias).bound = referenceModule k module alias := by
+  by_cases h : alias = "" <;> cases k <;> simp [pythonImport, PyImport.bound, referenceModule, isProtoPlus, h]
+
+/-- a proto-plus dependency whose module collides (`common` of `acme.dep.v1` next to the API's own `common`) is imported AND referred to
+under its package-derived alias; its `_pb2` counterpart needs none -/
+theorem plus_dep_alias_reaches_import :
+    (pythonImport .plusDep "common" "ad_common").bound = "ad_common" ∧ referenceModule .plusDep "common" "ad_common" = "ad_common" ∧
+    (pythonImport .pb2 "common" "ad_common").bound = "common_pb2" ∧ referenceModule .pb2 "common" "ad_common" = "common_pb2" := by decide
+
+/-- why the alias must reach the import of the proto-plus branch: an import without it binds `common`, references say `ad_common` -/
+theorem plus_dep_import_without_alias_breaks :
+    (PyImport.mk "common" "").bound ≠ referenceModule .plusDep "common" "ad_common" := by decide
+
 /-! ## `toSnakeCase` IS the code's current `to_snake_case` (translated by harness/pyfun2lean.py, re-bridged on every run) -/
 
 section Translated
